@@ -252,6 +252,40 @@ def check_jar_path(W, rec, path, value):
             rec.violation("C13/client-jar-path-scope-ignored", f"cookie with Path={path!r} was sent to /elsewhere", case, monitor="roundtrip")
 
 
+JAR_DOMAINS = [("example.com", "example.com"), ("example.com", "Example.COM"), ("b\u00fccher.example", "b\u00fccher.example"), ("xn--bcher-kva.example", "b\u00fccher.example"),
+               ("b\u00fccher.example", "xn--bcher-kva.example"), ("shop.example.com", "example.com"), ("shop.b\u00fccher.example", ".b\u00fccher.example"), ("example.com:8080", "example.com")]
+
+
+def check_jar_domain(W, rec, host, domain, value):
+    """A cookie set with an explicit Domain (the host itself, in another letter case, in IDNA or Unicode form, or a
+    parent domain) comes back on the next request to that host and is not sent to an unrelated host."""
+    Response, Client, Request = W["Response"], W["Client"], W["Request"]
+    rec.case()
+    rec.observe("client_jar_domain_cases")
+    rec.nontrivial(("jardomain", host, domain, value))
+    case = {"jar_host": host, "jar_domain": domain, "value": value}
+    seen = {}
+
+    @Request.application
+    def app(request):
+        seen[request.path] = request.cookies.to_dict()
+        resp = Response("ok")
+        if request.path == "/set":
+            resp.set_cookie("k", value, domain=domain)
+        return resp
+
+    with rec.guard(case, "C13"):
+        c = Client(app)
+        c.get("/set", base_url=f"http://{host}/")
+        c.get("/back", base_url=f"http://{host}/")
+        c.get("/other", base_url="http://unrelated.test/")
+        if seen.get("/back", {}).get("k") != value:
+            rec.violation("C13/client-jar-domain-not-sent-back", f"cookie set with Domain={domain!r} by {host!r} was not sent on the next request to that host: server saw {seen.get('/back')!r}", case, monitor="roundtrip")
+            return
+        if "k" in seen.get("/other", {}):
+            rec.violation("C13/client-jar-domain-scope-ignored", f"cookie with Domain={domain!r} was sent to unrelated.test", case, monitor="roundtrip")
+
+
 def rand_value(rng):
     out = []
     for _ in range(rng.randrange(0, 10)):
@@ -313,6 +347,9 @@ def run(shard, rec, rng):
         n += 1
         if n % of == idx:
             check_attrs(W, rec, rng, cell, rng.choice(["v", "a b", 'x";y', "é", "\x1b"]))
+    for j, (host, dom) in enumerate(JAR_DOMAINS):
+        if j % of == idx % len(JAR_DOMAINS) or idx == 0:
+            check_jar_domain(W, rec, host, dom, rng.choice(["v", "a b;c", "é"]))
     for j, pth in enumerate(JAR_PATHS):
         if j % of == idx % len(JAR_PATHS) or idx == 0:
             check_jar_path(W, rec, pth, rng.choice(["v", "a b;c", "é"]))
